@@ -18,7 +18,8 @@ class Prop(BaseProp):
     theorems = ["C11_constants_are_bip", "C11_checksum_valid", "C11_polymod_bound", "C11_create_checksum_symbols",
                 "C11_checksum_unique", "C11_convertbits_roundtrip", "C11_convertbits_canonical", "C11_decode_encode",
                 "C11_decode_sound", "C11_encode_some", "C11_illegal_none", "C11_rejects_mixed_case", "C11_rejects_long",
-                "C11_rejects_other_prefix", "C11_rejects_wrong_constant", "C11_padding_canonical"]
+                "C11_rejects_other_prefix", "C11_rejects_wrong_constant", "C11_padding_canonical",
+                "C11_bch_detects", "C11_detects_le4", "C11_substitution_refused", "C11_substitution4_refused"]
     exec_modules = ["Exec.C11"]
     exec_import = "From BHW Require Import Lib.Base Exec.Common Exec.C11.\nFrom Coq Require Import String.\nOpen Scope string_scope."
     shard = 120
